@@ -287,6 +287,16 @@ def handleValidate (j : Json) : Option Json := do
   some (Json.mkObj [("ok", Json.bool (C16.validate a b)),
                     ("na", Json.arr ((C16.normL a []).map stmtJson).toArray), ("nb", Json.arr ((C16.normL b []).map stmtJson).toArray)])
 
+/-- which operands of an and / or chain `remove_redundant_boolop_values` keeps: mask entries "t" / "f" / "u" -/
+def handleBoolop (j : Json) : Option Json := do
+  let isAnd ← (field? j "and") >>= getBool?
+  let mask ← (field? j "mask") >>= getArr?
+  let mask ← mask.toList.mapM getStr?
+  let ops : List (Option Bool × Nat) := mask.zipIdx.map (fun (m, i) => ((if m == "t" then some true else if m == "f" then some false else none), i))
+  let fuel := ((field? j "iter") >>= getNat?).getD 5
+  let kept := ((if isAnd then C15.iterPass C15.passAnd fuel ops else C15.iterPass C15.passOr fuel ops).map (·.2))
+  some (Json.mkObj [("keep", Json.arr (kept.map (fun (i : Nat) => Json.num (JsonNumber.fromNat i))).toArray)])
+
 partial def parseVal (j : Json) : Option C15.Val := do
   let a ← getArr? j
   match (← getStr? a[0]!) with
@@ -531,6 +541,7 @@ def dispatch (j : Json) : Json :=
   | some "lru" => (handleLru j).getD bad
   | some "blocking" => (handleBlocking j).getD bad
   | some "exec" => (handleExec j).getD bad
+  | some "boolop" => (handleBoolop j).getD bad
   | some "validate" => (handleValidate j).getD bad
   | some "lit" => (handleLit j).getD bad
   | some "match" => (handleMatch j).getD bad
